@@ -1242,7 +1242,19 @@ struct Outcome {
     infra: Option<String>,
 }
 
-fn run_script(script: &Script, sockdir: &str) -> Outcome {
+/// confirmed lane differences in which one lane blocked until the watchdog cut the connection
+static HANG_DIFFS: AtomicUsize = AtomicUsize::new(0);
+
+fn lane_hung(l: &LaneOut) -> bool {
+    l.obs.iter().any(|o| o.ret.out == "hang" || o.subs.iter().any(|s| s.out == "hang"))
+}
+
+fn run_script(script: &Script, sockdir: &str) -> Option<Outcome> {
+    // A systematic defect of the kind "the timeout is not applied" makes every silence script block for the whole
+    // watchdog period. Once it is established (10 confirmed cases) the remaining silence scripts add nothing but hours.
+    if HANG_DIFFS.load(Ordering::SeqCst) >= 10 && script.steps.iter().any(|s| s.srv == "sil" || s.srv == "k1s") {
+        return None;
+    }
     let mut flaky = 0;
     let mut last: Option<(LaneOut, LaneOut, Option<(String, Value)>)> = None;
     // a real difference is deterministic; a scheduling hiccup under load (a reply later than the 80 ms timeout) is not:
@@ -1252,8 +1264,14 @@ fn run_script(script: &Script, sockdir: &str) -> Outcome {
         let b = run_lane(true, script, sockdir);
         let d = lane_diff(script, &a, &b);
         let clean = d.is_none();
+        // five seconds of nothing are not a scheduling hiccup: no need to see it three times
+        let hung = d.is_some() && (lane_hung(&a) != lane_hung(&b));
         last = Some((a, b, d));
         if clean {
+            break;
+        }
+        if hung {
+            HANG_DIFFS.fetch_add(1, Ordering::SeqCst);
             break;
         }
         flaky += 1;
@@ -1275,7 +1293,7 @@ fn run_script(script: &Script, sockdir: &str) -> Outcome {
             model = da.or(db);
         }
     }
-    Outcome { rec: record(script, &a, &b), diff, flaky, model, conform, infra }
+    Some(Outcome { rec: record(script, &a, &b), diff, flaky, model, conform, infra })
 }
 
 // ------------------------------------------------------------------------------------------------
@@ -1294,7 +1312,7 @@ fn run_all(scripts: Vec<Script>, out_path: &str, rep: &mut Report, sockdir: &str
     let scripts = Arc::new(scripts);
     let order = Arc::new(order);
     let next = Arc::new(AtomicUsize::new(0));
-    let (tx, rx) = mpsc::channel::<(usize, Outcome)>();
+    let (tx, rx) = mpsc::channel::<(usize, Option<Outcome>)>();
     let mut joins = vec![];
     for t in 0..threads {
         let (scripts, order, next, tx, sockdir) = (scripts.clone(), order.clone(), next.clone(), tx.clone(), sockdir.to_string());
@@ -1316,7 +1334,7 @@ fn run_all(scripts: Vec<Script>, out_path: &str, rep: &mut Report, sockdir: &str
         );
     }
     drop(tx);
-    let mut outs: BTreeMap<usize, Outcome> = BTreeMap::new();
+    let mut outs: BTreeMap<usize, Option<Outcome>> = BTreeMap::new();
     let stall = Duration::from_secs(90);
     while outs.len() < scripts.len() {
         match rx.recv_timeout(stall) {
@@ -1337,6 +1355,13 @@ fn run_all(scripts: Vec<Script>, out_path: &str, rep: &mut Report, sockdir: &str
     let mut notes: BTreeMap<String, (u64, Value)> = BTreeMap::new();
     for (i, o) in outs {
         let sc = &scripts[i];
+        let o = match o {
+            Some(o) => o,
+            None => {
+                rep.count("skipped-after-10-confirmed-hang-differences");
+                continue;
+            }
+        };
         if let Some(m) = &o.infra {
             infra(m);
         }
@@ -1510,7 +1535,7 @@ fn main() {
             let sc = script_of(&v);
             let sd = std::env::var("C14_SOCKDIR").unwrap_or_else(|_| "/verif/run/c14-one-socks".into());
             std::fs::create_dir_all(&sd).ok();
-            let o = run_script(&sc, &sd);
+            let o = run_script(&sc, &sd).unwrap();
             let _ = std::fs::remove_dir_all(&sd);
             println!("{}", serde_json::to_string_pretty(&o.rec).unwrap());
             match o.diff {
